@@ -32,6 +32,12 @@ def leaf_contracts(ctx, facts, rule, classes, tier, seed, floor):
             else:
                 ctx.error(rule, '%s.propagate not summarisable: %s' % (cn, e))
             continue
+        fl = float_dataflow(s)
+        if fl:
+            ctx.violation(rule, cn + ':float', '%s.propagate sends wire values through floating-point arithmetic (`%s`): a double carries 53 bits, so the result '
+                          'is wrong for operands of 2^53 and more (wires may be wider)' % (cn, fl), where,
+                          witness=dict(configuration='every port 64 bits wide', inputs=dict(a=(1 << 53) + 1, b=1), note='(2^53+1)/1 evaluates to 2^53 in double precision'))
+            continue
         b = Block(facts, c)
         wide = (8, 33) if tier == 'thorough' else (8,)
         ncfg, nev, diffs = compare(b, lambda cfg, s=s: (lambda: summary_outputs(s, cfg)),
@@ -46,6 +52,27 @@ def leaf_contracts(ctx, facts, rule, classes, tier, seed, floor):
                             ' ; '.join('forall %s: %s := %s' % (f[1].split('#')[0], showp(f[5]), show(f[6])) for f in s.foralls)[:200],
                             configurations=ncfg, evaluations=nev))
     ctx.floor(rule, 'leaf contracts', n, floor)
+
+
+def float_dataflow(summary):
+    """first floating-point operator in the output expressions of a summary (true division; float(), math.* calls kept as opaque calls)"""
+    def walk(x):
+        if isinstance(x, tuple):
+            if len(x) >= 4 and x[0] == 'bin' and x[1] == '/':
+                return 'a / b'
+            if len(x) >= 2 and x[0] == 'call' and isinstance(x[1], str) and (x[1] in ('float',) or x[1].startswith('math.')):
+                return x[1] + '(..)'
+            for y in x:
+                r = walk(y)
+                if r:
+                    return r
+        elif isinstance(x, (list, dict)):
+            for y in (x.values() if isinstance(x, dict) else x):
+                r = walk(y)
+                if r:
+                    return r
+        return None
+    return walk([summary.puts, summary.prepares, [f for f in summary.foralls]])
 
 
 BASE_ATTRS = {'parent', 'name', 'children', 'inPorts', 'outPorts', 'inOutPorts', 'sources', 'sinks', 'clockDriver', '_wires',
